@@ -84,6 +84,81 @@ def tree_sexp(t):
     return "(infix h:%s %s %s)" % (t[1][1].encode().hex(), tree_sexp(t[2]), tree_sexp(t[3]))
 
 
+def frag_program(rng):
+    """a program of the fragment for which compile-then-execute = source meaning is PROVED (props/C01.v, C01_var_programs):
+    top-level declarations, assignments, expression statements and if/else with assignment / expression branches over
+    scalar expressions; here it is rendered to source text and pushed through the real pipeline like every other program"""
+    nvars = [0]
+    kinds = []          # 'i' / 'b' / '?' per variable (what it was last given; a guide for the generator, not a type system)
+
+    def iexpr(d, tern_ok=True):
+        k = rng.below(11 if d < 3 else 3)
+        ivars = [j for j, t in enumerate(kinds) if t == 'i']
+        if k == 0 or (k < 3 and not ivars):
+            return str(rng.choice([0, 1, 2, 3, 7, 10, -1, -5, 100, 9223372036854775807]))
+        if k < 3:
+            return "v%d" % rng.choice(ivars)
+        if k == 3:
+            return "(-(%s))" % iexpr(d + 1, tern_ok)
+        if k < 8:
+            return "(%s %s %s)" % (iexpr(d + 1, tern_ok), rng.choice(["+", "-", "*", "/", "%", "&"]), iexpr(d + 1, tern_ok))
+        if k == 8 and tern_ok:
+            return "(%s ? %s : %s)" % (bexpr(d + 1, False), iexpr(d + 1, False), iexpr(d + 1, False))
+        if k == 9:
+            return "(%s %s %s)" % (iexpr(d + 1, tern_ok), rng.choice(["&&", "||"]), iexpr(d + 1, tern_ok))
+        if k == 10 and rng.chance(1, 4):
+            return rng.choice(["nil", "true", "(1 + nil)", "(nil < 1)"])      # the occasional type error
+        return str(rng.below(20))
+
+    def bexpr(d, tern_ok=True):
+        k = rng.below(8 if d < 3 else 2)
+        bvars = [j for j, t in enumerate(kinds) if t == 'b']
+        if k == 0:
+            return rng.choice(["true", "false"])
+        if k == 1 and bvars:
+            return "v%d" % rng.choice(bvars)
+        if k < 5:
+            return "(%s %s %s)" % (iexpr(d + 1, tern_ok), rng.choice(["<", "<=", "==", "!=", ">", ">="]), iexpr(d + 1, tern_ok))
+        if k == 5:
+            return "(!(%s))" % bexpr(d + 1, tern_ok)
+        if k == 6:
+            return "(%s %s %s)" % (bexpr(d + 1, tern_ok), rng.choice(["&&", "||", "==", "!="]), bexpr(d + 1, tern_ok))
+        return "(%s == nil)" % iexpr(d + 1, tern_ok)
+
+    def expr(d):
+        return (iexpr(d), 'i') if rng.chance(3, 4) else (bexpr(d), 'b')
+
+    def simple():
+        if nvars[0] and rng.chance(1, 2):
+            j = rng.below(nvars[0])
+            e, t = expr(1)
+            kinds[j] = '?' if kinds[j] != t else t     # assigned on one path only: not relied upon afterwards
+            return "v%d = %s" % (j, e)
+        return expr(1)[0]
+
+    lines = []
+    for _ in range(2 + rng.below(7)):
+        k = rng.below(8)
+        if k < 3 or nvars[0] == 0:
+            e, t = expr(0)
+            lines.append("v%d := %s" % (nvars[0], e))
+            nvars[0] += 1
+            kinds.append(t)
+        elif k < 5:
+            j = rng.below(nvars[0])
+            e, t = expr(0)
+            kinds[j] = t
+            lines.append("v%d = %s" % (j, e))
+        elif k == 5:
+            lines.append(expr(0)[0])
+        else:
+            c = bexpr(1)
+            t = "; ".join(simple() for _ in range(rng.below(3)))
+            e = "; ".join(simple() for _ in range(rng.below(3)))
+            lines.append("if %s { %s } else { %s }" % (c, t, e))
+    return "\n".join(lines)
+
+
 def run(res):
     tier = res.tier
     nprog = 4000 if tier == "quick" else 100000
@@ -115,6 +190,9 @@ def run(res):
     for i in range(max(200, nprog // 5)):
         srcs.append(G.model_program(rng)[0])
     stats["closure programs"] = max(200, nprog // 5)
+    for i in range(max(300, nprog // 4)):
+        srcs.append(frag_program(rng))
+    stats["programs of the proved fragment"] = max(300, nprog // 4)
     corpus = []
     for f in ("harvest.hex", "semgen.hex", "edge.hex"):
         for line in open(os.path.join(C.VERIF, "corpus", "core", f)):
